@@ -456,13 +456,19 @@ static int cmd_run(int argc, char **argv) {
 
     // ---- triage of candidates: replay gate, minimise, known-finding match
     std::vector<Known> known = load_known(known_path);
-    std::set<std::string> seen_sigs; int violations = 0, known_seen = 0, harness_faults = 0;
+    std::set<std::string> seen_sigs; int violations = 0, known_seen = 0, harness_faults = 0, transient_timeouts = 0;
     std::vector<std::string> out_lines; std::vector<std::string> known_lines;
     for (auto &c : cands) {
         std::string key = c.clause + "|" + c.sig;
         if (seen_sigs.count(key)) continue;
         RunSpec s = base; s.run = c.run;
         ChildOutcome a = run_in_child(s, run_alarm, false), b = run_in_child(s, run_alarm, false);
+        if (c.sig == "timeout" && a.ok && b.ok && !a.violated && !b.violated && a.fingerprint == b.fingerprint) {
+            // wall-clock time is the one input the simulator does not own: a run that hit the backstop during the search but completes,
+            // twice and identically, when re-executed was slowed down by machine load -- not a violation and not a harness fault
+            printf("cifsim: run %llu exceeded the wall-clock backstop during the search but completes normally when re-executed (machine load); ignored\n", (unsigned long long) c.run); fflush(stdout);
+            ++transient_timeouts; continue;
+        }
         if (!(a.ok && b.ok && a.violated && b.violated && a.clause == b.clause && a.sig == b.sig && a.fingerprint == b.fingerprint)) {
             fprintf(stdout, "HARNESS-FAULT property=%s run=%llu: violation %s [%s] did not reproduce identically (first: %d %s [%s] fp=%016llx; second: %d %s [%s] fp=%016llx)\n", base.prop.c_str(), (unsigned long long) c.run,
                     c.clause.c_str(), c.sig.c_str(), a.violated, a.clause.c_str(), a.sig.c_str(), (unsigned long long) a.fingerprint, b.violated, b.clause.c_str(), b.sig.c_str(), (unsigned long long) b.fingerprint);
@@ -491,6 +497,7 @@ static int cmd_run(int argc, char **argv) {
         std::string full = std::string(self) + " replay " + path + " --quiet --tmpdir " + g_tmpdir + " >/dev/null 2>&1";
         int st = system(full.c_str());
         int ec = WIFEXITED(st) ? WEXITSTATUS(st) : -1;
+        if (ec != 1 && a.sig == "timeout") { printf("cifsim: the time-out of run %llu does not reproduce in a fresh process (machine load); ignored\n", (unsigned long long) c.run); fflush(stdout); ++transient_timeouts; continue; }
         if (ec != 1) { fprintf(stdout, "HARNESS-FAULT property=%s: minimised replay %s did not reproduce in a fresh process (exit %d)\n", base.prop.c_str(), path.c_str(), ec); ++harness_faults; continue; }
         bool is_known = false; std::string ktext;
         for (auto &k : known) if (k.prop == base.prop && k.clause == a.clause && k.sig == a.sig) { is_known = true; ktext = k.text; break; }
